@@ -226,3 +226,181 @@ fn c10_read_node_nonleaf_last_in_file() {
     kani::cover!(!big, "little endian");
     core::mem::forget(cur);
 }
+
+fn put_leaf(v: &mut Vec<u8>, big: bool, c1: u32, s: u32, c2: u32, e: u32, off: u64, sz: u64) {
+    put32(v, big, c1); put32(v, big, s); put32(v, big, c2); put32(v, big, e); put64(v, big, off); put64(v, big, sz);
+}
+fn put_nonleaf(v: &mut Vec<u8>, big: bool, c1: u32, s: u32, c2: u32, e: u32, child: u64) {
+    put32(v, big, c1); put32(v, big, s); put32(v, big, c2); put32(v, big, e); put64(v, big, child);
+}
+
+// @harness c05_search_handbuilt_2level
+// @props C05 C10 C04
+// @tier off
+// @kind core
+// @timeout 2400
+// @mem 32
+// @functions bbiread::{search_cir_tree_inner, CirTreeBlockSearchIter::next, read_node, cir_tree_leaf_items, cir_tree_non_leaf_items, nodes_overlapping, overlaps} over std::io::Cursor<Vec<u8>> (the blanket BBIFileRead impl)
+// @bounds an independently encoded 2-level index: root with 2 children, leaves with 2 and 1 blocks, nodes placed out of order (second leaf, then root, then first leaf; root NOT first), little-endian (big-endian in the thorough tier); block spans full width on chromosomes 0/1; child spans = any spans that contain their leaf's blocks; arbitrary query
+// @stubs alloc::fmt::format -> empty; Vec::push / Vec::reserve -> within capacity (asserted)
+// @assumes well-formed index: each recorded child span contains the blocks beneath it
+// @cut deeper trees and wider nodes (SmallVec cost, see c04_nodes_overlapping_leaf); zlib is not involved in the index
+// @witness cover: a query that descends into only one leaf; a query that hits all three blocks
+#[kani::proof]
+#[kani::unwind(6)]
+#[kani::stub(alloc::fmt::format, crate::verif_support::fake_format)]
+#[kani::stub(alloc::vec::Vec::push, crate::verif_support::push_within_capacity)]
+fn c05_search_handbuilt_2level() {
+    search_handbuilt(false);
+}
+
+// @harness c05_search_be_handbuilt_2level
+// @props C05 C10
+// @tier off
+// @kind stretch
+// @timeout 2400
+// @mem 32
+// @functions as c05_search_handbuilt_2level, big-endian file
+// @bounds as c05_search_handbuilt_2level
+// @stubs as c05_search_handbuilt_2level
+// @assumes as c05_search_handbuilt_2level
+#[kani::proof]
+#[kani::unwind(6)]
+#[kani::stub(alloc::fmt::format, crate::verif_support::fake_format)]
+#[kani::stub(alloc::vec::Vec::push, crate::verif_support::push_within_capacity)]
+fn c05_search_be_handbuilt_2level() {
+    search_handbuilt(true);
+}
+
+fn search_handbuilt(big: bool) {
+    // three blocks, in file order A0, A1, B0
+    let (ca0, sa0, ea0): (u32, u32, u32) = (kani::any(), kani::any(), kani::any());
+    let (ca1, sa1, ea1): (u32, u32, u32) = (kani::any(), kani::any(), kani::any());
+    let (cb0, sb0, eb0): (u32, u32, u32) = (kani::any(), kani::any(), kani::any());
+    kani::assume(ca0 <= 1 && ca1 <= 1 && cb0 <= 1);
+    kani::assume(sa0 <= ea0 && sa1 <= ea1 && sb0 <= eb0);
+    // recorded spans of the two children: arbitrary, but containing what is beneath them
+    let (a1c, a1s, a2c, a2e): (u32, u32, u32, u32) = (kani::any(), kani::any(), kani::any(), kani::any());
+    let (b1c, b1s, b2c, b2e): (u32, u32, u32, u32) = (kani::any(), kani::any(), kani::any(), kani::any());
+    kani::assume(key(a1c, a1s) <= key(ca0, sa0) && key(a1c, a1s) <= key(ca1, sa1));
+    kani::assume(key(a2c, a2e) >= key(ca0, ea0) && key(a2c, a2e) >= key(ca1, ea1));
+    kani::assume(key(b1c, b1s) <= key(cb0, sb0) && key(b2c, b2e) >= key(cb0, eb0));
+    // layout: [0..36) leaf B, [36..88) root, [88..156) leaf A
+    let mut d: Vec<u8> = Vec::with_capacity(160);
+    d.push(1); d.push(0); put16(&mut d, big, 1);
+    put_leaf(&mut d, big, cb0, sb0, cb0, eb0, 3000, 30);
+    d.push(0); d.push(0); put16(&mut d, big, 2);
+    put_nonleaf(&mut d, big, a1c, a1s, a2c, a2e, 88);
+    put_nonleaf(&mut d, big, b1c, b1s, b2c, b2e, 0);
+    d.push(1); d.push(0); put16(&mut d, big, 2);
+    put_leaf(&mut d, big, ca0, sa0, ca0, ea0, 1000, 10);
+    put_leaf(&mut d, big, ca1, sa1, ca1, ea1, 2000, 20);
+    let mut cur = std::io::Cursor::new(d);
+    let (q, qs, qe): (u32, u32, u32) = (kani::any(), kani::any(), kani::any());
+    kani::assume(q <= 1 && qs <= qe);
+    let r = search_cir_tree_inner(endian(big), &mut cur, 36, q, qs, qe);
+    let (rok, got) = match r {
+        Ok(v) => (true, v),
+        Err(e) => { core::mem::forget(e); (false, Vec::new()) }
+    };
+    assert!(rok, "[search] searching a well-formed index failed");
+    let hit = |c: u32, s: u32, e: u32| key(q, qs) <= key(c, e) && key(q, qe) >= key(c, s);
+    let (h0, h1, h2) = (hit(ca0, sa0, ea0), hit(ca1, sa1, ea1), hit(cb0, sb0, eb0));
+    let n = (h0 as usize) + (h1 as usize) + (h2 as usize);
+    assert!(got.len() == n, "[count] the index search returns a different number of blocks than the linear scan");
+    let mut k = 0;
+    if h0 { assert!(got[k].offset == 1000 && got[k].size == 10, "[order0] wrong block / order"); k += 1; }
+    if h1 { assert!(got[k].offset == 2000 && got[k].size == 20, "[order1] wrong block / order"); k += 1; }
+    if h2 { assert!(got[k].offset == 3000 && got[k].size == 30, "[order2] wrong block / order"); k += 1; }
+    let c2 = !h0 & !h1 & h2;
+    kani::cover!(c2, "only the second leaf is hit");
+    let c3 = h0 & h1 & h2;
+    kani::cover!(c3, "all three blocks hit");
+    core::mem::forget(got);
+    core::mem::forget(cur);
+}
+
+// @harness c10_read_info_header
+// @props C10 C01 C02
+// @tier quick
+// @kind core
+// @timeout 2400
+// @mem 24
+// @functions bbiread::read_info, read_zoom_headers, read_chrom_tree_block (leaf arm) over std::io::Cursor<Vec<u8>>
+// @bounds an independently encoded file prefix: 64-byte header (all fields symbolic, full width), little-endian (big-endian: c10_read_info_bigendian; with a symbolic byte order the key size read back from the file is no longer folded and buffer sizes become symbolic), either file type, 1 zoom directory entry, chromosome tree with one leaf of 2 chromosomes ("a", "bb"; ids and sizes symbolic)
+// @stubs alloc::fmt::format -> empty; Vec::push -> within capacity (asserted)
+// @assumes well-formed file (magic, chromosome tree magic, val size 8)
+// @cut multi-level chromosome trees (c10_read_chrom_tree_2level), more zoom levels, data and index sections
+// @witness cover: bigBed; bigWig
+#[kani::proof]
+#[kani::unwind(8)]
+#[kani::stub(alloc::fmt::format, crate::verif_support::fake_format)]
+fn c10_read_info_header() {
+    read_info_header(false);
+}
+
+// @harness c10_read_info_bigendian
+// @props C10
+// @tier quick
+// @kind core
+// @timeout 2400
+// @mem 24
+// @functions as c10_read_info_header, for a big-endian file
+// @bounds as c10_read_info_header
+// @stubs alloc::fmt::format -> empty
+// @assumes well-formed file
+// @witness cover: bigBed and bigWig
+#[kani::proof]
+#[kani::unwind(8)]
+#[kani::stub(alloc::fmt::format, crate::verif_support::fake_format)]
+fn c10_read_info_bigendian() {
+    read_info_header(true);
+}
+
+fn read_info_header(big: bool) {
+    let isbed: bool = kani::any();
+    let (ver, fc, dfc): (u16, u16, u16) = (kani::any(), kani::any(), kani::any());
+    let (fdo, fio, aso, tso): (u64, u64, u64, u64) = (kani::any(), kani::any(), kani::any(), kani::any());
+    let ubs: u32 = kani::any();
+    let (zr, zd, zi): (u32, u64, u64) = (kani::any(), kani::any(), kani::any());
+    let (ida, sza, idb, szb): (u32, u32, u32, u32) = (kani::any(), kani::any(), kani::any(), kani::any());
+    let magic: u32 = if isbed { 0x8789_F2EB } else { 0x888F_FC26 };
+    let mut d: Vec<u8> = Vec::with_capacity(160);
+    put32(&mut d, big, magic); put16(&mut d, big, ver); put16(&mut d, big, 1);
+    put64(&mut d, big, 88); // chromosome tree right after the zoom directory
+    put64(&mut d, big, fdo); put64(&mut d, big, fio);
+    put16(&mut d, big, fc); put16(&mut d, big, dfc);
+    put64(&mut d, big, aso); put64(&mut d, big, tso); put32(&mut d, big, ubs); put64(&mut d, big, 0);
+    // zoom directory entry
+    put32(&mut d, big, zr); put32(&mut d, big, 0); put64(&mut d, big, zd); put64(&mut d, big, zi);
+    // chromosome tree header + one leaf
+    put32(&mut d, big, 0x78CA_8C91); put32(&mut d, big, 2); put32(&mut d, big, 2); put32(&mut d, big, 8);
+    put64(&mut d, big, 2); put64(&mut d, big, 0);
+    d.push(1); d.push(0); put16(&mut d, big, 2);
+    d.push(b'a'); d.push(0); put32(&mut d, big, ida); put32(&mut d, big, sza);
+    d.push(b'b'); d.push(b'b'); put32(&mut d, big, idb); put32(&mut d, big, szb);
+    let mut cur = std::io::Cursor::new(d);
+    let r = read_info(&mut cur);
+    let ok = match &r {
+        Ok(info) => {
+            let h = &info.header;
+            let ft_ok = match info.filetype { BBIFile::BigBed => isbed, BBIFile::BigWig => !isbed };
+            let en_ok = match h.endianness { Endianness::Big => big, Endianness::Little => !big };
+            ft_ok && en_ok && h.version == ver && h.zoom_levels == 1 && h.chromosome_tree_offset == 88
+                && h.full_data_offset == fdo && h.full_index_offset == fio && h.field_count == fc && h.defined_field_count == dfc
+                && h.auto_sql_offset == aso && h.total_summary_offset == tso && h.uncompress_buf_size == ubs
+                && info.zoom_headers.len() == 1 && info.zoom_headers[0].reduction_level == zr
+                && info.zoom_headers[0].data_offset == zd && info.zoom_headers[0].index_offset == zi
+                && info.chrom_info.len() == 2
+                && info.chrom_info[0].name.as_bytes() == b"a" && info.chrom_info[0].id == ida && info.chrom_info[0].length == sza
+                && info.chrom_info[1].name.as_bytes() == b"bb" && info.chrom_info[1].id == idb && info.chrom_info[1].length == szb
+        }
+        Err(_) => false,
+    };
+    core::mem::forget(r);
+    assert!(ok, "[read_info] header / zoom directory / chromosome table differ from what the file encodes");
+    kani::cover!(isbed, "bigBed");
+    let c2 = !isbed;
+    kani::cover!(c2, "bigWig");
+    core::mem::forget(cur);
+}
